@@ -67,6 +67,31 @@ func runRaceMisc(o *opts) (*summary, error) {
 		close(gate)
 		wg.Wait()
 	}
+	// (0b) concurrent calls whose slice arguments are disjoint windows of ONE table of the caller's (each window has spare
+	// capacity behind it - the next door's codes): a callee that writes past the window it was given races with its neighbour
+	{
+		u, d := stubClient(stubCfgs[1])
+		d.script = func(method string, req []byte) [][]byte { return nil }
+		for round := 0; round < 20; round++ {
+			table := make([]uint32, 16)
+			for i := range table {
+				table[i] = uint32(100000 + i)
+			}
+			gate := make(chan struct{})
+			var wg sync.WaitGroup
+			for door := 0; door < 4; door++ {
+				wg.Add(1)
+				go func(door int) {
+					defer wg.Done()
+					<-gate
+					win := table[4*door : 4*door+1+(door+round)%4]
+					guard(func() { u.SetDoorPasscodes(405419896, uint8(door+1), win...) })
+				}(door)
+			}
+			close(gate)
+			wg.Wait()
+		}
+	}
 	tick := 20 * time.Millisecond
 	T := 3
 
